@@ -17,10 +17,14 @@ Put(m, k, v) == IF Has(m, k) THEN [i \in 1..Len(m) |-> IF m[i].k = k THEN [k |->
 Remove(m, ks) == SelectSeq(m, LAMBDA e : e.k \notin ks)
 Unique(m) == \A i, j \in 1..Len(m) : m[i].k = m[j].k => i = j
 
-\* add / add_ex: c = [k, v, ret]; succeeds (the drivers inject no allocation failure)
-AddStep(m, c) == IF c.ret = 0 THEN Yes(Put(m, c.k, c.v)) ELSE No(m)
+\* add / add_ex: c = [k, v, ret]; succeeds - unless the harness made an allocation request of this very call fail
+\* (c.fault = 1: the failure was actually delivered): then it may report -1 and the map is as it was (C08 on every
+\* history the model generates)
+FaultOf(c) == IF "fault" \in DOMAIN c THEN c.fault ELSE 0
+Refused(m, c) == IF c.ret = -1 /\ FaultOf(c) = 1 THEN Yes(m) ELSE No(m)
+AddStep(m, c) == IF c.ret = 0 THEN Yes(Put(m, c.k, c.v)) ELSE Refused(m, c)
 \* add with the KEY_IS_NEW promise: only legal when the key is absent
-AddNewStep(m, c) == IF c.ret = 0 /\ ~Has(m, c.k) THEN Yes(Append(m, [k |-> c.k, v |-> c.v])) ELSE No(m)
+AddNewStep(m, c) == IF ~Has(m, c.k) THEN (IF c.ret = 0 THEN Yes(Append(m, [k |-> c.k, v |-> c.v])) ELSE Refused(m, c)) ELSE No(m)
 \* delete: c = [k, ret] ; ret = 0 iff the key was present (-1 otherwise), map without k
 DelStep(m, c) == IF (c.ret = 0) = Has(m, c.k) /\ c.ret \in {0, -1} THEN Yes(Remove(m, {c.k})) ELSE No(m)
 \* lookup: c = [k, v] ; v = -1 when absent
